@@ -29,9 +29,33 @@ BASE = {
 SENTINEL = {"out.c": "int out;\n", "out.py": "o = 1\n", "keep.txt": "keep\n"}
 LINKS = {"l_out.c": "../sentinel/out.c", "l_in.c": "a.c", "l_dir": "../sentinel", "dangling.c": "nowhere"}
 IGNORED = ("ign.c", "build/gen.py")
+# REUSE.toml as a symbolic link (tree flavour "tl"; further values: "dir" = a directory of that name, "ignored-file" = a regular
+# file that Git ignores): target of the link, relative to the project root
+TOML_LINKS = {"dangling-out": "../sentinel/new5.txt", "live-out": "../sentinel/keep.txt", "dangling-in": "conf/nowhere.toml",
+              "live-in": "conf/reuse.toml", "live-in-source": "a.c"}
+# tree flavour "sub": projects below the top of the repository (`reuse --root pkg/app`, `--root src`, `--root pkg`), with ignore rules
+# at the top (.gitignore: *_local.py, build/, *.ign.c), below (pkg/app/.gitignore: secret.c, /tmp_*/) and in .git/info/exclude (*.tmp.c)
+SUB_ROOTS = ["pkg/app", "src", "pkg"]
+SUB_FILES = {
+    "pkg/app/main.py": "m = 1\n", "pkg/app/settings_local.py": "s = 1\n", "pkg/app/build/generated.py": "g = 2\n",
+    "pkg/app/.gitignore": "secret.c\n/tmp_*/\n", "pkg/app/secret.c": "int secret;\n", "pkg/app/tmp_x/t.py": "t = 1\n",
+    "pkg/app/lib/util.c": "int util;\n", "pkg/app/lib/cache.tmp.c": "int cache;\n", "pkg/app/lib/deep/secret.c": "int deep;\n",
+    "pkg/app/lib/deep/keep.py": "k = 1\n", "pkg/app/docs/d.html": "<p>x</p>\n", "pkg/app/docs/x.ign.c": "int x;\n",
+    "pkg/other/o.py": "o = 1\n", "pkg/other/o_local.py": "o = 2\n", "pkg/top.c": "int top;\n",
+    "src/gen_local.py": "g = 3\n", "src/build/x.py": "x = 1\n", "src/deep/junk.tmp.c": "int junk;\n",
+}
+SUB_IGNORED = ("pkg/app/settings_local.py", "pkg/app/build/generated.py", "pkg/app/secret.c", "pkg/app/tmp_x/t.py", "pkg/app/lib/cache.tmp.c",
+               "pkg/app/lib/deep/secret.c", "pkg/app/docs/x.ign.c", "pkg/other/o_local.py", "src/gen_local.py", "src/build/x.py",
+               "src/deep/junk.tmp.c")
+
+
+def ignored_of(case):
+    if not case["tree"].get("git"):
+        return set()
+    return set(IGNORED) | (set(SUB_IGNORED) if case["tree"].get("sub") else set())
 # (single, multi, terminator, uncommentable) by extension — written down from the documentation
 STYLES = {".c": (0, 1, "*/", 0), ".cpp": (1, 1, "*/", 0), ".py": (1, 0, "", 0), ".html": (0, 1, "-->", 0), ".csv": (0, 0, "", 1),
-          ".png": (0, 0, "", 1), ".license": (0, 0, "", 0), ".gitignore": (1, 0, "", 0)}
+          ".png": (0, 0, "", 1), ".license": (0, 0, "", 0), ".gitignore": (1, 0, "", 0), ".toml": (1, 0, "", 0)}
 FETCHABLE = ["MIT", "GPL-3.0-or-later", "0BSD"]
 READ_ONLY = {"lint": ["lint"], "lint-json": ["lint", "--json"], "lint-lines": ["lint", "--lines"], "spdx": ["spdx"],
              "supported-licenses": ["supported-licenses"], "help": ["--help"], "version": ["--version"]}
@@ -50,6 +74,18 @@ def tree_of(case):
     links = dict(LINKS)
     if t.get("git"):
         files[".gitignore"] = "ign.c\nbuild/\n"
+    if t.get("sub"):
+        files.update(SUB_FILES)
+        files[".gitignore"] = "ign.c\nbuild/\n*_local.py\n*.ign.c\n"
+    if t.get("tl") in TOML_LINKS:
+        files["conf/reuse.toml"] = TOML
+        links["REUSE.toml"] = TOML_LINKS[t["tl"]]
+    elif t.get("tl") == "ignored-file":
+        # a regular REUSE.toml that Git ignores (needs "git"): the project does not read it, so it is no conflict with .reuse/dep5
+        files["REUSE.toml"] = TOML
+        files[".gitignore"] = files.get(".gitignore", "") + "REUSE.toml\n"
+    elif t.get("tl") == "dir":
+        files["REUSE.toml/keep.txt"] = "a directory of that name\n"
     if t.get("lic") == "dep5":
         files[".reuse/dep5"] = DEP5
     elif t.get("lic") == "toml":
@@ -88,7 +124,25 @@ def materialise(top, case):
     os.chmod(os.path.join(proj, "ro.c"), 0o444)
     if case["tree"].get("git"):
         subprocess.run(["git", "init", "-q"], cwd=proj, check=True, capture_output=True)
-        if case["tree"].get("tracked"):
+        if case["tree"].get("sub"):
+            with open(os.path.join(proj, ".git", "info", "exclude"), "a") as fp:
+                fp.write("*.tmp.c\n")
+            # every directory holds a tracked file (the Git strategy does not see ignored files inside wholly untracked directories:
+            # known finding c03-git-ignored-in-untracked-dir); "tracked": everything that is not ignored
+            keep = sorted(f for f in files if f not in SUB_IGNORED and f not in IGNORED and not f.startswith("LICENSES/"))
+            if not case["tree"].get("tracked"):
+                seen, one = set(), []
+                for f in keep:
+                    if os.path.dirname(f) not in seen:
+                        seen.add(os.path.dirname(f))
+                        one.append(f)
+                keep = one
+            subprocess.run(["git", "add", "--"] + keep, cwd=proj, check=True, capture_output=True)
+            # generator precondition: Git itself calls exactly the listed files ignored
+            r = subprocess.run(["git", "check-ignore", "--no-index", "--"] + sorted(files), cwd=proj, capture_output=True, text=True)
+            if set(r.stdout.split()) != set(IGNORED) | set(SUB_IGNORED):
+                raise RuntimeError("generator precondition: git check-ignore says %s" % sorted(set(r.stdout.split()) ^ (set(IGNORED) | set(SUB_IGNORED))))
+        elif case["tree"].get("tracked"):
             # tracked files whose time stamps are then changed: `git status` would like to refresh the index
             subprocess.run(["git", "add", "a.c", "b.py", "src", "ro.c", "l_in.c"], cwd=proj, check=True, capture_output=True)
     for dp, dn, fn in os.walk(top):
@@ -136,7 +190,37 @@ def git_state(top):
     return h.hexdigest()
 
 
-def argv_of(case, cmd):
+def argv_of(case, cmd, proj="<proj>"):
+    """The command line.  Paths in a case are relative to the repository top (`proj`); a case may ask for another working
+    directory ("cwd", relative to proj) and for `--root` ("rootdir" relative to proj, spelt "rel"ative to the cwd, "abs"olute or
+    "slash" = relative with ./ and a trailing slash): the names are then re-expressed relative to the working directory."""
+    if "cwd" not in case and "rootdir" not in case:
+        return argv_local(case, cmd)
+    cwd = case.get("cwd", ".")
+    anchor = proj if os.path.isabs(proj) else "/top/proj"
+    conv = lambda n: os.path.relpath(os.path.join(anchor, n), os.path.join(anchor, cwd))
+    cmd2 = dict(cmd)
+    if "named" in cmd2:
+        cmd2["named"] = [conv(n) for n in cmd2["named"]]
+    if cmd2.get("out"):
+        cmd2["out"] = conv(cmd2["out"])
+    pre = []
+    if case.get("rootdir") is not None:
+        rel = conv(case["rootdir"])
+        spell = case.get("rootspell", "rel")
+        pre = ["--root", os.path.normpath(os.path.join(proj, case["rootdir"])) if spell == "abs" else "./" + rel + "/" if spell == "slash" else rel]
+    return pre + argv_local(case, cmd2)
+
+
+def root_rel(case):
+    """the project root relative to the repository top: --root if given, else what reuse finds (the top of the Git work tree,
+    or the working directory without VCS)"""
+    if case.get("rootdir") is not None:
+        return os.path.normpath(case["rootdir"])
+    return "." if case["tree"].get("git") else os.path.normpath(case.get("cwd", "."))
+
+
+def argv_local(case, cmd):
     k = cmd["cmd"]
     if k in READ_ONLY:
         return list(READ_ONLY[k])
@@ -190,22 +274,23 @@ def covered_in(snap, ignored, below):
 def allowed_for(case, cmd, s0):
     """-> (set of paths that may change, may existing paths change?)"""
     k = cmd["cmd"]
-    ignored = set(IGNORED) if case["tree"].get("git") else set()
+    ignored = ignored_of(case)
+    R = lambda p: os.path.normpath(os.path.join(root_rel(case), p))   # a path of the project, relative to the repository top
     if k in READ_ONLY or k == "lint-file":
         return set(), False
     if k == "spdx-o":
-        return {cmd["out"]}, True
+        return {os.path.normpath(cmd["out"])}, True
     if k == "convert-dep5":
-        return {"REUSE.toml", ".reuse/dep5"}, True
+        return {R("REUSE.toml"), R(".reuse/dep5")}, True
     if k == "download":
         al = set()
         if cmd.get("out"):
             al |= {cmd["out"], os.path.dirname(cmd["out"])}
         elif cmd.get("all"):
-            al |= {p for p in ("LICENSES/%s.txt" % i for i in FETCHABLE + ["ISC", "Nope-1.0"])}
+            al |= {R(p) for p in ("LICENSES/%s.txt" % i for i in FETCHABLE + ["ISC", "Nope-1.0"])}
         else:
-            al |= {"LICENSES/%s.txt" % (i[:-1] if i.endswith("+") else i) for i in cmd.get("ids", [])}
-        return al | {"LICENSES"}, False
+            al |= {R("LICENSES/%s.txt" % (i[:-1] if i.endswith("+") else i)) for i in cmd.get("ids", [])}
+        return al | {R("LICENSES")}, False
     if k == "annotate":
         files = set()
         for n in cmd["named"]:
@@ -222,7 +307,7 @@ def allowed_for(case, cmd, s0):
 
 def judge(case, cmd, s0, s1, g0, g1):
     al, may_modify = allowed_for(case, cmd, s0)
-    what = " ".join(argv_of(case, cmd))
+    what = " ".join(argv_of(case, cmd)) + (" (in %s)" % case["cwd"] if case.get("cwd", ".") != "." else "")
     if g0 != g1:
         return "git-metadata: `reuse %s` changed .git/index, HEAD or config" % what
     for rel in sorted(set(s0) | set(s1)):
@@ -242,7 +327,8 @@ def judge(case, cmd, s0, s1, g0, g1):
             return "overwrite: `reuse %s` may only add files but changed the existing %s" % (what, rel)
     if cmd["cmd"] == "convert-dep5":
         ch = {rel for rel in al if s0.get(rel) != s1.get(rel)}
-        if ch and not ("REUSE.toml" not in s0 and "REUSE.toml" in s1 and ".reuse/dep5" in s0 and ".reuse/dep5" not in s1):
+        toml, dep5 = os.path.normpath(os.path.join(root_rel(case), "REUSE.toml")), os.path.normpath(os.path.join(root_rel(case), ".reuse/dep5"))
+        if ch and not (toml not in s0 and toml in s1 and dep5 in s0 and dep5 not in s1):
             return "convert-shape: convert-dep5 did something other than creating REUSE.toml and removing .reuse/dep5: %s" % sorted(ch)
     return None
 
@@ -336,9 +422,12 @@ class CommandStream(Stream):
 
     def gen_tree(self, rng):
         git = rng.random() < 0.6
-        return {"git": git, "tracked": git and rng.random() < 0.6, "lic": rng.choice(["dep5", "dep5", "toml", "none"]),
-                "sibs": ["b.py"] if rng.random() < 0.3 else [], "sl": rng.random() < 0.3, "dsl": rng.random() < 0.25,
-                "lr": rng.choice([None, None, None, "file", "link", "dangling"]) if not self.modelled else None}
+        t = {"git": git, "tracked": git and rng.random() < 0.6, "lic": rng.choice(["dep5", "dep5", "toml", "none"]),
+             "sibs": ["b.py"] if rng.random() < 0.3 else [], "sl": rng.random() < 0.3, "dsl": rng.random() < 0.25,
+             "lr": rng.choice([None, None, None, "file", "link", "dangling"]) if not self.modelled else None}
+        if t["lic"] != "toml" and rng.random() < 0.2:
+            t["tl"] = rng.choice(sorted(TOML_LINKS) + ["dir"] + (["ignored-file"] if git else []))   # REUSE.toml is there, but not as a file the project reads
+        return t
 
     def cases(self, tier, rng):
         thorough = tier == "thorough"
@@ -359,6 +448,14 @@ class CommandStream(Stream):
                            (["a.c", "dpic.png", "b.py"], None), (["dsl.py"], None)):
             yield {"tree": {"git": False, "lic": "none", "sibs": [], "sl": False, "dsl": True}, "terms": [],
                    "cmds": [{"cmd": "annotate", "dot": dot, "named": named}]}
+        # REUSE.toml is a symbolic link (dangling or live, pointing outside or inside the project), a directory, or a file that Git
+        # ignores -- nothing the project reads, so no conflict is seen when it is loaded -- with and without .reuse/dep5
+        for tl in sorted(TOML_LINKS) + ["dir", "ignored-file"]:
+            for lic in ("dep5", "none"):
+                for git in ((True,) if tl == "ignored-file" else (False, True) if thorough or tl.endswith("out") else (False,)):
+                    yield {"tree": {"git": git, "lic": lic, "sibs": [], "sl": False, "tl": tl}, "terms": [], "cmds": [{"cmd": "convert-dep5"}]}
+            yield {"tree": {"git": tl == "ignored-file", "lic": "dep5", "sibs": [], "sl": False, "tl": tl}, "terms": [],
+                   "cmds": [{"cmd": "lint"}, {"cmd": "convert-dep5"}, {"cmd": "annotate", "dot": None, "named": ["a.c"]}, {"cmd": "convert-dep5"}]}
         for _ in range(n1):
             case = {"tree": self.gen_tree(rng), "terms": rng.choice([[], [], ["*/"], ["-->"]])}
             case["cmds"] = [gen_cmd(rng, case, self.modelled)]
@@ -380,7 +477,7 @@ class CommandStream(Stream):
             for cmd in case["cmds"]:
                 logging.disable(logging.CRITICAL)
                 try:
-                    code, out, exc = cli.run_cli(argv_of(case, cmd), proj)
+                    code, out, exc = cli.run_cli(argv_of(case, cmd, proj), os.path.normpath(os.path.join(proj, case.get("cwd", "."))))
                 finally:
                     logging.disable(logging.NOTSET)
                 snaps.append(snapshot(top))
@@ -434,11 +531,11 @@ class CommandStream(Stream):
                 if st[1] and not st[0] and st[2] and st[2] in holder:
                     failing.append("C" + p)
         binary = [n for n, c in files.items() if isinstance(c, bytes)]
-        ignored = set(IGNORED) if case["tree"].get("git") else set()
+        ignored = ignored_of(case)
         snap0 = {n: ("file", "", 0, len(c)) for n, c in files.items()}
         below = ["\n".join([d] + sorted(covered_in(snap0, ignored, d))) for d in sorted(dirs) if d]
         world = ["0", "LICENSES"] + FETCHABLE
-        watch = sorted(cand | {"../sentinel/" + n for n in SENTINEL} | {"../sentinel/new%d.txt" % i for i in (1, 2, 3, 4)} | {"LICENSES/%s.txt" % i for i in FETCHABLE + ["Nope-1.0"]}
+        watch = sorted(cand | {"../sentinel/" + n for n in SENTINEL} | {"../sentinel/new%d.txt" % i for i in (1, 2, 3, 4, 5)} | {"conf/nowhere.toml", "conf/reuse.toml", "conf"} | {"LICENSES/%s.txt" % i for i in FETCHABLE + ["Nope-1.0"]}
                        | {"REUSE.toml", ".reuse/dep5", "out.spdx", "lic", "lic/COPYING", "LICENSES"})
         cmds = []
         for cmd in case["cmds"]:
@@ -489,7 +586,8 @@ class CommandStream(Stream):
         return (tuple(c["cmd"] for c in case["cmds"]), impl_out.split("|", 1)[1])
 
     def show(self, case):
-        return {"tree": case["tree"], "argv": [argv_of(case, c) for c in case["cmds"]]}
+        return {"tree": case["tree"], "argv": [argv_of(case, c) for c in case["cmds"]],
+                **({"cwd": "<proj>/" + case["cwd"]} if "cwd" in case else {})}
 
 
 class UnmodelledStream(CommandStream):
@@ -514,6 +612,60 @@ class UnmodelledStream(CommandStream):
                     if out:
                         cmd["out"] = out
                     yield {"tree": {"git": False, "lic": "none", "sibs": [], "sl": False, "lr": lr}, "terms": [], "cmds": [cmd]}
+
+
+class SubRootStream(CommandStream):
+    name = "subroot"
+    modelled = False
+    rule = ("projects that are a SUB-DIRECTORY of a Git work tree (pkg/app, src, pkg of a repository whose ignore rules live in the "
+            "top-level .gitignore, in pkg/app/.gitignore and in .git/info/exclude; every directory holds a tracked file; `git "
+            "check-ignore` confirms the generator's list of ignored files): the project root is given with --root (relative, "
+            "absolute, ./x/) from the repository top, from the project directory itself, from a directory below it and from outside "
+            "the repository, or not given at all (working directory inside the sub-directory, Git finds the top); annotate "
+            "--recursive over the project / its sub-directories, annotate of named files, lint, spdx -o, download, singly and in "
+            "sequences: same snapshot oracle (Git-ignored files below the named directories must stay byte-identical, nothing "
+            "outside the documented paths changes); oracle only")
+
+    def combos(self, rootdir):
+        deeper = {"pkg/app": "pkg/app/lib", "src": "src/deep", "pkg": "pkg/app/docs"}[rootdir]
+        return [(".", "rel"), (".", "abs"), (".", "slash"), (rootdir, "rel"), (rootdir, "abs"), (rootdir, None), (deeper, "rel"),
+                (deeper, None), (deeper, "slash"), ("..", "rel"), ("..", "abs"), ("../sentinel", "rel")]
+
+    def gen_sub_cmd(self, rng, rootdir, cwd):
+        below = sorted({os.path.dirname(f) for f in list(SUB_FILES) + list(BASE) if f.startswith(rootdir + "/")} | {rootdir})
+        inside = sorted(f for f in list(SUB_FILES) + list(BASE) if f.startswith(rootdir + "/") and not f.endswith(".gitignore"))
+        r = rng.random()
+        if r < 0.55:
+            named = rng.sample(below, rng.randint(1, 2))
+            if rng.random() < 0.5:
+                named = [rootdir]
+            return {"cmd": "annotate", "dot": rng.choice([None, "skip", "fallback", "force"]), "recursive": True, "named": named}
+        if r < 0.7:
+            return {"cmd": "annotate", "dot": rng.choice([None, "fallback"]), "named": rng.sample(inside, rng.randint(1, 3))}
+        if r < 0.8:
+            return {"cmd": rng.choice(["lint", "lint-json", "spdx"])}
+        if r < 0.9:
+            return {"cmd": "spdx-o", "out": "out.spdx" if cwd.startswith("..") else os.path.normpath(os.path.join(cwd, "out.spdx"))}
+        return {"cmd": "download", "ids": rng.sample(["MIT", "0BSD", "Nope-1.0"], rng.randint(1, 2))}
+
+    def cases(self, tier, rng):
+        thorough = tier == "thorough"
+        for rootdir in SUB_ROOTS:
+            combos = self.combos(rootdir)
+            for cwd, spell in (combos if thorough else [combos[0]] + rng.sample(combos[1:], 4)):
+                tree = {"git": True, "tracked": rng.random() < 0.5, "lic": "none", "sibs": [], "sl": False, "sub": True}
+                case = {"tree": tree, "terms": [], "cwd": cwd}
+                if spell is not None:
+                    case.update(rootdir=rootdir, rootspell=spell)
+                # the whole project, recursively: every ignored file below the root is at stake
+                case["cmds"] = [{"cmd": "annotate", "dot": rng.choice([None, "skip"]), "recursive": True, "named": [rootdir]}]
+                yield case
+                for _ in range(4 if thorough else 1):
+                    c2 = {"tree": dict(tree, tracked=rng.random() < 0.5), "terms": [], "cwd": cwd}
+                    if spell is not None:
+                        c2.update(rootdir=rootdir, rootspell=spell)
+                    c2["cmds"] = [self.gen_sub_cmd(rng, rootdir, cwd) for _ in range(rng.randint(1, 3))]
+                    yield c2
 
 
 # ---------------------------------------------------------------------------
@@ -624,7 +776,7 @@ def log_path(top):
 
 PROPERTY = Property(
     pid="C15",
-    streams=[CommandStream(), UnmodelledStream(), StraceStream()],
+    streams=[CommandStream(), UnmodelledStream(), SubRootStream(), StraceStream()],
     assumptions=[
         "the model's file system has no write-through: a write at path p changes p only. That no written path is a symbolic link "
         "(or lies below a linked directory) is checked on the real tree by the snapshot of the outside sentinel and by the "
